@@ -73,6 +73,8 @@ class Agg:
         self.job = job
         self.counts = {}
         self.fails = []
+        self.nsig = {}
+        self.kept = {}
         self.samples = []
         self.keys = set()
         self.paths = 0
@@ -89,8 +91,13 @@ class Agg:
     def add(self, r):
         for k, v in r["counts"].items():
             self.counts[k] = self.counts.get(k, 0) + v
-        if len(self.fails) < 200:
-            self.fails.extend(r["fails"])
+        for k, v in r.get("nsig", {}).items():
+            self.nsig[k] = self.nsig.get(k, 0) + v
+        for f in r["fails"]:
+            sk = json.dumps(f.get("sig"), sort_keys=True, default=str)
+            if self.kept.get(sk, 0) < 3 and len(self.fails) < 3000:
+                self.kept[sk] = self.kept.get(sk, 0) + 1
+                self.fails.append(f)
         if len(self.samples) < 4:
             self.samples.extend(r["samples"][: 4 - len(self.samples)])
         self.keys.update(r["keys"])
